@@ -1,6 +1,7 @@
 package main
 
 import (
+	"runtime"
 	"flag"
 	"fmt"
 	"os"
@@ -169,8 +170,14 @@ func execPass(run *Run, pd *PropDoc, arch string, overlay map[string][]byte) {
 			run.add("infra", VUndecided, "analyser-panic", "-", fmt.Sprintf("analyser panic: %v\n%s", r, debug.Stack()))
 		}
 	}()
+	// per-pass registries (passes run one after the other; holding the previous pass's packages would keep them alive)
+	declRegistry = sync.Map{}
+	guardGaps = map[*PkgIndex]map[string]string{}
 	c.Preload(pd.Modules...)
 	pd.Fn(c)
+	declRegistry = sync.Map{}
+	guardGaps = map[*PkgIndex]map[string]string{}
+	runtime.GC()
 }
 
 func runProp(id, tier, verif, replay string) (code int) {
